@@ -495,17 +495,16 @@ def attrFiltered (name : Str) (filters : List Nat) : RM Bool := do
 /-- the `except Exception` branch of `visit_OnError`: bind `error`, call the handler, cut the stream
 back to the saved length (dropping any translation sub-streams opened since), leave the fallback to run -/
 def onErrorHandle (cfg : ECfg) (key depth savedLen : Nat) (ex : Exc) (s' : RState) : Option RState :=
-  match s'.x.token with
-  | none => none
-  | some (pos, _) =>
-    let (line, col) := Tok.location cfg.src { str := [], pos := pos }
-    -- the saved length lives in a Python local: one per on-error node, or (quirk D-13a) one per function
-    let cut := if cfg.tc.q.sharedFallbackVar then ((s'.env.topFrame.saved.find? (·.1 == key)).map (·.2)).getD savedLen
-               else savedLen
-    let streams0 := s'.streams.drop (s'.streams.length - depth)
-    let streams1 := match streams0 with | top :: rest => top.take cut :: rest | [] => []
-    let env' : Env := { s'.env with own := (lit "error", Val.errorInfo ex.cls ex.msg line col) :: s'.env.own.filter (·.1 != lit "error") }
-    some { s' with streams := streams1, handled := s'.handled + 1, env := env' }
+  -- `__tokens[__token][1:3] if __token is not None else (None, None)`: no position is known when the exception comes
+  -- out of an internal macro or a slot filler (before the D-13c fix the handler raised KeyError(None) then)
+  let pos : Option (Nat × Nat) := s'.x.token.map (fun t => Tok.location cfg.src { str := [], pos := t.1 })
+  -- the saved length lives in a Python local: one per on-error node, or (quirk D-13a) one per function
+  let cut := if cfg.tc.q.sharedFallbackVar then ((s'.env.topFrame.saved.find? (·.1 == key)).map (·.2)).getD savedLen
+             else savedLen
+  let streams0 := s'.streams.drop (s'.streams.length - depth)
+  let streams1 := match streams0 with | top :: rest => top.take cut :: rest | [] => []
+  let env' : Env := { s'.env with own := (lit "error", Val.errorInfo ex.cls ex.msg pos) :: s'.env.own.filter (·.1 != lit "error") }
+  some { s' with streams := streams1, handled := s'.handled + 1, env := env' }
 
 /-- `mangle(name)`: every non-word character becomes `_` (ASCII names) -/
 def mangleName (s : Str) : Str :=
@@ -680,8 +679,15 @@ def eval (cfg : ECfg) (al : List (Str × Val)) : Nat → Node → RM Unit
       | .none => mRaise { cls := "AttributeError", msg := lit "'NoneType' object has no attribute 'items'" }
       | _ => mUnsupported "attribute dictionary of this class"
     | .content e esc translate => do
-      let v ← enVal cfg al e
-      if translate then mUnsupported "tal:content with i18n:translate=\"\"" else
+      let v0 ← enVal cfg al e
+      -- `__content = translate(__content, default=None, domain=…, context=…, target_language=…)`
+      let v ← (if translate then
+          match v0 with
+          | .str s => do
+            let r ← liftX (fun env => callTranslate cfg env s none none)
+            pure (Val.str r)
+          | _ => mUnsupported "tal:content with i18n:translate=\"\" of a value that is not text"
+        else pure v0)
       let q ← mLiftR (toQIn cfg v)
       let t := if esc then quoteVal Site.content.q Site.content.qe none q else convertVal q
       match t with
@@ -745,7 +751,7 @@ def eval (cfg : ECfg) (al : List (Str × Val)) : Nat → Node → RM Unit
       | .raised ex s' =>
         if !isSubclass cfg ex.cls ["Exception"] then .raised ex s'
         else match onErrorHandle cfg key depth savedLen ex s' with
-          | none => .unsupported "on-error with __token None"
+          | none => .unsupported "unreachable: the handler always runs"
           -- the records of the handled failure are dropped (after the D-12b fix)
           | some s2 => eval cfg al f fallback { s2 with tmaps := s2.tmaps.drop (s2.tmaps.length - s.tmaps.length),
                                                         errs := s2.errs.extract 0 s.errs.size }
